@@ -311,6 +311,9 @@ def check(P, R, tier):
         m = re.match(r"(\S+) -> (\S+) @", key[2])
         if m:
             sites.setdefault(m.group(2), set()).update(t for t in tagset if t)
+    import fmtdecode
+    nf2 = fmtdecode.run_parallel(R, P, "RF2-fmt", every=(tier == "thorough"), jobs=14, parse=False, reprs=True)
+    R.floor("RF2-fmt", "texts printed from the non-ymd representations", nf2, 20000)
     na = accdecode.run_parallel(R, P.tu("libdut_a-date-core.o"), "RF2-acc", sorted(sites.items()), jobs=12)
     R.floor("RF2-acc", "decoded accessor results at the printers' call sites", na, 50000)
 
